@@ -55,7 +55,7 @@ type Opts struct {
 	ErrH      string `json:"errh"`
 	NMW       int    `json:"nmw"`
 	Recovery  bool   `json:"recovery"`  // Handle: WithPanicRecovery(true)
-	HandleH   string `json:"handleh"`   // default | custom (panic / scope-error / resolution-error handlers)
+	HandleH   string `json:"handleh"`   // default | custom (panic / scope-error / resolution-error handlers) | nil-option (gin only: documented as "the default is used")
 	CloseH    string `json:"closeh"`    // default | custom CloseErrorHandler | nil-option (WithCloseErrorHandler(nil): "If nil, errors are logged")
 	FwRecover bool   `json:"fwrecover"` // framework-level recover middleware outermost (else the driver / http.Server recovers)
 }
